@@ -103,7 +103,7 @@ var (
 	reFuncHdr  = regexp.MustCompile(`^(func|iface|functype)\s+(\S+?)\s*\(([^)]*)\)\s*(?:\(([^)]*)\))?\s*$`)
 	reLabel    = regexp.MustCompile(`^([A-Za-z0-9_.+\-/@]+):\s+(.*)$`)
 	rePure     = regexp.MustCompile(`^pure\s+([A-Za-z_][A-Za-z0-9_]*)\s*\(([^)]*)\)\s*(\S+)\s*(?:=\s*(.*))?$`)
-	reKeyword  = regexp.MustCompile(`^(func|iface|functype|type|pure|axiom|requires|ensures|loop|rangeloop|assigns|let|trusted|pureeffect|iterator|sends|ghost|noreturncheck|safety|closedworld|implements|ghostparam|atcall)\b`)
+	reKeyword  = regexp.MustCompile(`^(func|iface|functype|type|pure|axiom|requires|ensures|loop|rangeloop|assigns|let|trusted|pureeffect|iterator|sends|ghost|noreturncheck|safety|closedworld|implements|ghostparam|atcall|cut)\b`)
 )
 
 func splitNames(s string) []string {
@@ -280,6 +280,26 @@ func (cs *ContractSet) parseFile(path string) error {
 					return errf("%v", err)
 				}
 				cur.Clauses = append(cur.Clauses, &Clause{Kind: "atcall", Name: m[1], N: n, Label: label, Tags: tags, E: e, Src: body, Line: l.no})
+			}
+		case "cut":
+			// cut before <callee>@<k> [label:] expr – a merge point just before the k-th call of callee in source
+			// order: every path reaching it proves expr; the rest of the function is verified once, from a state
+			// about which only the entry facts and expr are known.
+			if cur == nil {
+				return errf("clause outside function")
+			}
+			{
+				m := regexp.MustCompile(`^before\s+(\S+?)@(\d+)\s+(.*)$`).FindStringSubmatch(rest)
+				if m == nil {
+					return errf("bad cut clause")
+				}
+				n, _ := strconv.Atoi(m[2])
+				label, tags, body := parseLabel(m[3])
+				e, err := parseExpr(body)
+				if err != nil {
+					return errf("%v", err)
+				}
+				cur.Clauses = append(cur.Clauses, &Clause{Kind: "cut", Name: m[1], N: n, Label: label, Tags: tags, E: e, Src: body, Line: l.no})
 			}
 		case "closedworld":
 			if cur == nil {
